@@ -800,6 +800,10 @@ def c12(tier, rep):
                         # every later step is a deferred, explicitly closed wrapper whose inner operand is the reading capture
                         p = fp.build(mac, ds, flavour="Res" if mac.startswith("try") else None, lets=lets, readers=readers, wrap=True)
                         progs.append(fp.to_prog("%s/%s/%s/%s/wrap" % (mac, fl, fp.pname(ds), "".join(map(str, sub))), p, fp.offset_rows()))
+                    if fl == "Res" and mac in ("try_join", "try_join_spawn") and len(sub) == n:
+                        # every later step starts with a DEFERRED error-side operator (`~<=`) whose block operand is the reader
+                        p = fp.build(mac, ds, flavour="Res", lets=lets, readers=readers, err_defer_cap=True)
+                        progs.append(fp.to_prog("%s/%s/%s/%s/errdefer" % (mac, fl, fp.pname(ds), "".join(map(str, sub))), p, fp.offset_rows()))
                     if fl == "Res" and mac in ("try_join", "try_join_spawn") and len(sub) == n and max(ds) >= 3:
                         p = fp.build(mac, ds, flavour="Res", lets=lets, readers=readers, err_after=True)
                         progs.append(fp.to_prog("%s/%s/%s/%s/err" % (mac, fl, fp.pname(ds), "".join(map(str, sub))), p, fp.offset_rows()))
